@@ -11,9 +11,11 @@ import Robsd.Model.Conf
   wrong type, timeout out of range), the value rules (booleans 1/0, lists
   joined by single spaces, timeouts in seconds), the rdomain cycle, and the
   exact difference between the documented and the accepted keywords.
-  NOT proved (kept as the correspondence's job, see DESIGN.md): that every
-  text derivable from the documented grammar is accepted with every variable
-  at its configured value (`complete`).
+  Completeness (every statement list of the value-keyword fragment is accepted,
+  in any order, with every variable at its configured value or default) is
+  proved at the token level in Props/C08Complete.lean.  NOT proved (kept as
+  the correspondence's job, see DESIGN.md): the same for regress/step
+  statements with option words and for the text-to-token layer.
 -/
 namespace Robsd
 namespace C08
